@@ -7,7 +7,7 @@ Import ListNotations.
 
 Theorem C20_printf_corpus :
   snd (run_printf [] [37; 57; 57; 57; 57; 57; 57; 57; 57; 57; 57; 57; 100]%N [1%N] [])
-    = AssertStop "w <= (INT_MAX - (*s - '0')) / 10"
+    = AssertStop msg_width_overflow
   /\ let r := run_printf [] [37; 51; 36; 100; 37; 49; 36; 100; 37; 50; 36; 100]%N [1; 2; 3]%N (repeat 0%N 9) in
      snd r = Ok tt /\ length (va_pops (ps_vs (fst r))) = 3%nat.
 Proof. split; [reflexivity | split; reflexivity]. Qed.
